@@ -122,6 +122,9 @@ def run(ctx):
         a = [ro.text(x) for x in ro.nodes[i]["args"]]
         ctx.check("cgroupfd" in a[0] and a[1] == "this->xattr_filter_", "xattr-probed-on-this-cgroup", "provenance", ro.loc(i),
                   "the attribute is probed on the cgroup's own directory fd", "probe is hasxattrAt(%s)" % ", ".join(a))
+    # the filter test itself: presence of the attribute, whatever its value
+    from .C03 import has_xattr_probe
+    has_xattr_probe(ctx)
     # ---- drop loop
     bad = erase_in_iteration(P, ro, ctx.cg)
     ctx.check(not bad, "erase-in-iteration:Ruleset::runOnce", "erase_in_iteration", ro.loc(bad[0][0]) if bad else ro.loc(),
